@@ -544,9 +544,38 @@ def _nontrivial(hist):
     return any(len(h.get("rx", [])) >= 2 for h in hist) or any(h["op"].startswith("Do") for h in hist)
 
 
+_PREFETCH = {}
+
+
+def _tlc_on_proxy(cfg, actions, min_cases, workers):
+    """Run one slice's TLC with core's own Context.tlc on a private accounting object (thread-safe)."""
+    import types
+    acc = types.SimpleNamespace(states=0, transitions=0, tlc_runs=[], coverage_actions={})
+    res = core.Context.tlc(acc, "RSysGraph_MC", "RSysGraph_MC_%s.cfg" % cfg, require_actions=actions,
+                           require_cases=min_cases, timeout=1500, workers=workers)
+    return res, acc
+
+
+def _prefetch(ctx, specs, parallel=4):
+    """Start the TLC runs of several slices concurrently (they are independent; most of a quick slice is JVM
+    start-up); results are consumed in order by _slice, accounting is merged on the main thread."""
+    from concurrent.futures import ThreadPoolExecutor
+    pool = ThreadPoolExecutor(max_workers=parallel)
+    for cfg, actions, min_cases in specs:
+        _PREFETCH[cfg] = pool.submit(_tlc_on_proxy, cfg, actions, min_cases, 4)
+    pool.shutdown(wait=False)
+
+
 def _slice(ctx, cfg, n_pick, actions, via_tlc=False, min_cases=50, always=None):
-    res = ctx.tlc("RSysGraph_MC", "RSysGraph_MC_%s.cfg" % cfg, require_actions=actions, require_cases=min_cases,
-                  timeout=1500, workers=8)
+    if cfg in _PREFETCH:
+        res, acc = _PREFETCH.pop(cfg).result()     # a MachineryFailure of the run is re-raised here
+        ctx.states += acc.states
+        ctx.transitions += acc.transitions
+        ctx.tlc_runs.extend(acc.tlc_runs)
+        ctx.coverage_actions.update(acc.coverage_actions)
+    else:
+        res = ctx.tlc("RSysGraph_MC", "RSysGraph_MC_%s.cfg" % cfg, require_actions=actions, require_cases=min_cases,
+                      timeout=1500, workers=8)
     sel = ctx.pick(res.cases, n_pick, always=always) if always else ctx.pick(res.cases, n_pick)
     hists = [c["in"]["hist"] for c in sel]
     outs = ctx.pmap(run_history, hists)
@@ -795,6 +824,12 @@ def run(ctx):
     if not q:
         ctx.tlc("RSysGraph_MC", "RSysGraph_MC_inv_t.cfg", timeout=1500, workers=8)
     t0 = _t(ctx, "invariants", t0)
+    if q:
+        hist_actions = ["PickRx", "GenMake", "GenSplit", "GenSubset", "GenAdd", "GenQuery", "GenQueryCat"]
+        _prefetch(ctx, [("ctor_q", [], 50), ("graph_q", [], 2000), ("chain_q", [], 600), ("dot_q", [], 1000),
+                        ("subyld_q", [], 2000), ("pair_q", ["GenQuery2"], 50), ("conv_q", [], 1000),
+                        ("cat3_q", ["GenQueryCat"], 50), ("bounds_q", [], 1000), ("twin", [], 3000),
+                        ("hist_q", hist_actions, 50)])
     # (vacuity guard by -coverage only where an action is specific to the slice; it slows TLC down)
     _slice(ctx, "ctor_" + sfx, None if not q else 1000, [])
     _slice(ctx, "graph_" + sfx, 1500 if q else None, [], min_cases=2000)
